@@ -1,6 +1,6 @@
 """C07 — re-encoding a decoded message is stable: decode-encode is idempotent."""
 from vlib.engine import Scenario, run_all
-from gen import regs, datasets
+from gen import regs, datasets, templates
 from props.c10 import parse_nodes
 from props import c01, c09
 
@@ -14,7 +14,19 @@ RULE = ("messages of two kinds: (own) produced by the library's encoder from the
 ASSUMPTIONS = c01.ASSUMPTIONS + ["element widths 1..64 bits after operators, 32 for scaled numerics (the property's own scope)"]
 P = c01.P
 prepare = c01.prepare
-two_pass = c01.two_pass
+
+def two_pass(scn, c_out):
+    """the model decodes the bytes the *implementation* produced (`ds.decodelast`, `ds.decodemsg @`)"""
+    lines = c01.two_pass(scn, c_out)
+    last = None
+    for i, l in enumerate(lines):
+        if l.startswith("ds.msg ") and i < len(c_out):
+            last = c_out[i] if all(ch in "0123456789abcdef" for ch in c_out[i]) and c_out[i] else None
+        elif l == "ds.decodemsg @" and last:
+            lines[i] = "ds.decodemsg " + last
+    return lines
+
+FORCED = templates.OPERATOR_KINDS + ["203", "203", "204"]
 
 def _tail(nsub, comp):
     ls = ["ds.decodelast 1 0 0"]
@@ -26,8 +38,96 @@ def _tail(nsub, comp):
     ls += ["dd.tocur", "ds.encode %d" % comp]
     return ls
 
+EDGE = [0, 1, 99, 100, 101, 127, 128, 254, 255]
+
+def _hdr_keys(rng, ed):
+    def oct_(): return rng.choice(EDGE + [rng.randrange(256)] * 6)
+    year = rng.choice([0, 1, 99, 100, 101, 1900, 1999, 2000, 2001, 2024, 2100, 2101, rng.randrange(1, 3000)])
+    centre = rng.choice([0, 7, 54, 255, 256, 65535, rng.randrange(65536)]) if ed != 3 else oct_()
+    sub = rng.choice([0, 3, 255, 256, 32767, rng.randrange(32768)]) if ed >= 4 else oct_()
+    return ("mt=%d centre=%d sub=%d upd=%d type=%d isub=%d lsub=%d mver=%d lver=%d year=%d month=%d day=%d hour=%d minute=%d second=%d flag=0"
+            % (0, centre, sub, oct_(), oct_(), oct_(), oct_(), rng.choice([13, 17, 19, 35, oct_()]), oct_(), year,
+               rng.choice([1, 2, 12, oct_()]), rng.choice([1, 28, 29, 31, oct_()]), rng.choice([0, 23, oct_()]),
+               rng.choice([0, 59, oct_()]), rng.choice([0, 59, oct_()])))
+
+def _msg_round(nsub, comp):
+    ls = []
+    for k in range(nsub):
+        ls += ["dd.list %d" % k, "dd.vals %d" % k]
+    return ls + ["ds.hdr d", "dd.tocur", "ds.msg s %d" % comp]
+
+def mutate_s1(msg, rng):
+    """another legal Section 1 for the same message: any octet of Section 1 except its length and the flag octet
+    (optional section), drawn with a bias to the corners (0, 99/100/101, 255)"""
+    b = bytearray(msg)
+    i0 = bytes(b).find(b"BUFR")
+    if i0 < 0 or len(b) < i0 + 12:
+        return None
+    ed = b[i0 + 7]
+    if ed < 2:
+        return None
+    s1 = i0 + 8
+    n = (b[s1] << 16) | (b[s1 + 1] << 8) | b[s1 + 2]
+    flagidx = 9 if ed >= 4 else 7
+    idx = [k for k in range(4, n) if k != flagidx]       # octet 4 (index 3) is the master table: kept 0 (WMO)
+    for k in rng.sample(idx, rng.choice([1, 2, 3, len(idx)])):
+        b[s1 + k] = rng.choice(EDGE + [rng.randrange(256)] * 4)
+        if ed <= 3 and k == 12:
+            b[s1 + k] = rng.choice([0, 1, 99, 100, 100, rng.randrange(101)])   # year of the century: 1..100 (0 tolerated)
+    return bytes(b)
+
+def msg_scenarios(rng, tier, runner):
+    """whole messages: Section 1, header string and additional octets ride along with the data through
+    decode -> encode -> decode -> encode; own messages and the same messages under another legal Section 1"""
+    n = 120 if tier == "quick" else 2500
+    own, stage = [], []
+    for i in range(n):
+        name = rng.choice(["cur", "loc", "syn", "v13"])
+        B, D = P[name]
+        nsub = rng.choice([1, 2, 3])
+        comp = rng.choice([0, 1])
+        ed = rng.choice([2, 3, 3, 4, 4])
+        ls, meta = datasets.build_lines(rng, name, B, D, nsub=nsub, same_structure=(comp == 1), edition=ed, ops=False,
+                                        depth=rng.choice([0, 1, 2]))
+        ls = [l for l in ls if not l.startswith("ss.list") and not l.startswith("ss.vals")]
+        ls += ["ds.invalid", "ds.hdr s " + _hdr_keys(rng, ed)]
+        if rng.random() < 0.3:
+            ls.append("ds.hstr s " + bytes(rng.choice([b"IUSN01 CWAO 121200\r\r\n", b"AB", b"\x01\r\r\n123\r\r\n"])).hex())
+        if rng.random() < 0.3:
+            # lengths the message reader can leave behind: up to edition 3 one octet beyond the 17 is the fill of the
+            # default length 18, not data
+            ls.append("ds.s1data s " + bytes(rng.randrange(256) for _ in range(rng.choice([1, 2, 3, 6] if ed >= 4 else [2, 3, 6]))).hex())
+        keep = rng.choice([comp, comp, -1])
+        ls.append("ds.msg s %d" % comp)
+        meta.update(kind="msg-own", comp=comp, ed=ed)
+        chain = []
+        for _ in range(2):
+            chain += ["ds.decodemsg @"] + _msg_round(nsub, keep)
+        own.append(Scenario("msg-own-%d" % i, ls + chain, meta))
+        stage.append(Scenario("msg-b-%d" % i, ls, dict(meta, keep=keep)))
+    out = list(own)
+    res = run_all(runner, stage, "impl")
+    for s, (o, crash) in zip(stage, res):
+        if crash or len(o) != len(s.lines):
+            continue
+        h = o[-1]
+        if not h or any(ch not in "0123456789abcdef" for ch in h):
+            continue
+        inv = o[[i for i, l in enumerate(s.lines) if l == "ds.invalid"][0]]
+        if inv != "0":
+            continue
+        m2 = mutate_s1(bytes.fromhex(h), rng)
+        if m2 is None:
+            continue
+        nsub, keep = s.meta["nsub"], s.meta["keep"]
+        ls = ["T.use " + s.meta["tables"]]
+        for _ in range(3):
+            ls += ["ds.decodemsg " + (m2.hex() if len(ls) == 1 else "@")] + _msg_round(nsub, keep)
+        out.append(Scenario("msg-for-" + s.name, ls, dict(s.meta, kind="msg-foreign")))
+    return out
+
 def scenarios(rng, tier, runner):
-    out = []
+    out = msg_scenarios(rng, tier, runner)
     n = 450 if tier == "quick" else 8000
     stage1 = []
     for i in range(n):
@@ -35,9 +135,22 @@ def scenarios(rng, tier, runner):
         B, D = P[name]
         comp = rng.choice([0, 1, 1])
         nsub = rng.choice([1, 2, 3, 4])
+        # every fourth dataset is built around one operator group of a fixed kind (cycling through the kinds) and is
+        # always handed to the reference encoder, which may switch the compression: a foreign message in the
+        # layout the implementation's encoder did NOT produce, re-encoded by the path that did not write it
+        forced = None
+        if i % 3 == 1:
+            forced = FORCED[(i // 3) % len(FORCED)]
+            nsub = rng.choice([2, 3])
+            comp = (i // (3 * len(FORCED))) % 2   # each kind first written by each of the two encoder paths
         while True:
-            ls, meta = datasets.build_lines(rng, name, B, D, nsub=nsub, same_structure=(comp == 1 and rng.random() < 0.85),
-                                            edition=rng.choice([2, 3, 4, 4]))
+            tmpl = None
+            if forced:
+                tmpl = [templates.pick_element(rng, B) for _ in range(rng.choice([0, 1]))] + \
+                       templates.gen_operator_group(rng, B, D, kind=forced) + [templates.pick_element(rng, B)]
+            ls, meta = datasets.build_lines(rng, name, B, D, nsub=nsub, same_structure=(forced is not None) or (comp == 1 and rng.random() < 0.85),
+                                            edition=rng.choice([2, 3, 4, 4]), template=tmpl,
+                                            same_fill=(forced == "203"))
             tm = next(l for l in ls if l.startswith("tm.new")).split()
             # an operator the edition does not define is read differently by the (strict) dataset builder and
             # the (default, warning) decoder: not a well-formed message, kept out of this stream
@@ -55,7 +168,7 @@ def scenarios(rng, tier, runner):
         meta["kind"] = "own"
         s = Scenario("own-%d" % i, ls + _tail(nsub, comp), meta)
         out.append(s)
-        if i % 3 == 0:
+        if i % 3 == 0 or forced:
             stage1.append(Scenario("b-%d" % i, ls, dict(meta)))
     # foreign messages: reference re-encoding of what the implementation built
     c1 = run_all(runner, stage1, "impl")
@@ -102,64 +215,77 @@ def scenarios(rng, tier, runner):
 compare = c01.compare
 
 def oracle(scn, outs):
+    # the chain  [E0 =] m -decode-> D0 -encode-> m1 -decode-> D1 -encode-> m2 [-decode-> D2 -encode-> m3]:
+    # every decode after the first equals the first decode, every encode after m1 equals m1, and for a message the
+    # library's own encoder produced (kind own: the scenario starts with the encode of a built dataset) m1 = m
     if len(outs) != len(scn.lines):
         return None
     lines = scn.lines
-    encs = [(i, outs[i].split()) for i, l in enumerate(lines) if l.startswith("ds.encode")]
-    decs = [(i, outs[i].split()) for i, l in enumerate(lines) if l.startswith("ds.decode")]
-    if scn.meta.get("kind") == "own":
-        if len(encs) != 3 or len(decs) != 2:
-            return None
-        m, m1, m2 = encs[0][1], encs[1][1], encs[2][1]
-    else:
-        if len(encs) != 3 or len(decs) != 3:
-            return None
-        m, m1, m2 = None, encs[1][1], encs[2][1]
-        decs = decs[1:]
-        if outs[[i for i, l in enumerate(lines) if l.startswith("ds.decode")][0]].split()[:2] != ["ok", "0"]:
-            return None     # the foreign message itself must decode valid (C04's business)
-        # m' here is the first re-encoding of the foreign message: encs[0]; compare encs[0] -> encs[1] -> encs[2]
-        m, m1, m2 = encs[0][1], encs[1][1], encs[2][1]
-    if any(len(e) != 3 for e in (m, m1, m2)):
+    own = scn.meta.get("kind") in ("own", "msg-own")
+    whole = scn.meta.get("kind", "").startswith("msg-")
+    decs = [i for i, l in enumerate(lines) if l.startswith("ds.decode")]
+    if not decs:
         return None
-    # scope: m decodes valid; widths 1..64, scaled numerics <= 32
-    d0 = decs[0][1]
-    if d0[:2] != ["ok", "0"]:
+    is_enc = (lambda l: l.startswith("ds.msg ")) if whole else (lambda l: l.startswith("ds.encode"))
+    encs_before = [outs[i].split() for i, l in enumerate(lines[:decs[0]]) if is_enc(l)]
+    encs = [outs[i].split() for i, l in enumerate(lines) if is_enc(l) and i > decs[0]]
+    if len(decs) != (2 if own else 3) or len(encs) != len(decs) or (own and not encs_before):
+        return None     # a shrunk scenario that no longer has the whole chain
+    m = encs_before[-1] if own else None
+    if whole:
+        if any(len(e) != 1 or any(ch not in "0123456789abcdef" for ch in e[0]) for e in encs + ([m] if own else [])):
+            return None
+    elif any(len(e) != 3 for e in encs + ([m] if own else [])):
         return None
-    first = decs[0][0]
-    nsub = int(d0[2])
-    l1 = {}; v1 = {}; l2 = {}; v2 = {}
-    second = decs[1][0]
-    for i in range(first + 1, second):
-        t = lines[i].split()
-        if t[0] == "dd.list": l1[int(t[1])] = outs[i]
-        if t[0] == "dd.vals": v1[int(t[1])] = outs[i]
-    for i in range(second + 1, len(lines)):
-        t = lines[i].split()
-        if t[0] == "dd.list": l2[int(t[1])] = outs[i]
-        if t[0] == "dd.vals": v2[int(t[1])] = outs[i]
+    def dec_out(i):
+        f = outs[i].split()
+        return f[2:] if f[:1] == ["read"] else f       # `ds.decodemsg` prefixes `read <octets>`
+    if dec_out(decs[0])[:2] != ["ok", "0"]:
+        return None     # scope: m itself decodes valid (that a well-formed foreign message does is C04's business)
+    nsub = int(dec_out(decs[0])[2])
+    views = []
+    for j, d in enumerate(decs):
+        end = decs[j + 1] if j + 1 < len(decs) else len(lines)
+        ls, vs = {}, {}
+        for i in range(d + 1, end):
+            t = lines[i].split()
+            if t[0] == "dd.list": ls[int(t[1])] = outs[i]
+            if t[0] == "dd.vals": vs[int(t[1])] = outs[i]
+            if lines[i] == "ds.hdr d": vs["header"] = outs[i]       # Section 1, flags and header string of the dataset
+        views.append((ls, vs))
+    l1, v1 = views[0]
     ed = scn.meta.get("ed", 4)
+    want = set(range(nsub))
+    if set(l1) != want or set(v1) - {"header"} != want or (whole and "header" not in v1):
+        return None
     for k in l1:
         if l1[k] in ("none", "-"):
             return None
         if c09.in_scope(ed, [nd["desc"] for nd in c09.items_of(parse_nodes(l1[k]))]):
             return None     # operators outside FM 94 for this edition: not a well-formed message
-        for nd in parse_nodes(l1[k]):
+        for nd, v in zip(parse_nodes(l1[k]), v1[k].split()):
             if nd["flags"] & 4: continue
+            # scope: widths 1..64, scaled numerics <= 32
             if nd["type"] in (4, 6, 7) and not (1 <= nd["nbits"] <= 64): return None
             if nd["type"] == 4 and nd["nbits"] > 32 and (nd["scale"] != 0 or nd["ref"] != 0): return None
-            if nd["type"] == 8: return None     # 2 03: decided by C01/C09 streams, re-encoding needs settled references
-    if outs[second].split()[:2] != ["ok", "0"]:
-        return "the re-encoded message m' decodes as invalid or is refused: %s" % outs[second]
-    want = set(range(nsub))
-    if set(l1) != want or set(v1) != want or set(l2) != want or set(v2) != want:
-        return None      # a shrunk scenario that no longer lists both decodes completely
-    if l1 != l2 or v1 != v2:
-        k = next(k for k in sorted(l1) if l1.get(k) != l2.get(k) or v1.get(k) != v2.get(k))
-        return "subset %d of decode(m') differs from decode(m)" % k
-    if m2 != m1:
-        return "encoding decode(m') again does not reproduce m' byte for byte"
-    if scn.meta.get("kind") == "own" and m1 != m:
+            # a new reference value of -1 is read as the missing sentinel (known finding of C09, its witness is there)
+            if nd["type"] == 8 and v == "i:-1": return None
+    for j in range(1, len(decs)):
+        name = "m" + "'" * j
+        if dec_out(decs[j])[:2] != ["ok", "0"]:
+            return "the re-encoded message %s decodes as invalid or is refused: %s" % (name, outs[decs[j]])
+        l2, v2 = views[j]
+        if set(l2) != want or set(v2) != set(v1):
+            return None
+        if v1.get("header") != v2.get("header"):
+            return "Section 1 / flags / header string of decode(%s) differ from those of decode(m): %s vs %s" % (name, v2.get("header"), v1.get("header"))
+        if l1 != l2 or v1 != v2:
+            k = next(k for k in sorted(l1) if l1.get(k) != l2.get(k) or v1.get(k) != v2.get(k))
+            return "subset %d of decode(%s) differs from decode(m)" % (k, name)
+    for j in range(1, len(encs)):
+        if encs[j] != encs[0]:
+            return "encoding decode(m%s) again does not reproduce m' byte for byte" % ("'" * j)
+    if own and encs[0] != m:
         return "re-encoding the decoded own message does not reproduce it byte for byte"
     return None
 
